@@ -99,6 +99,12 @@ class IniScenario:
             vals["stdout"] = vals["stdout_color"] = None
         if r.random() < 0.35:
             vals["stderr"] = vals["stderr_color"] = None
+        console_focus = r.random() < 0.2
+        if console_focus:
+            # both colour keys together, the two streams of different kinds (app 2>err.log from a terminal)
+            vals["stdout_color"] = vals["stderr_color"] = "true"
+            vals["stdout"] = r.choice([None, "true", "false"])
+            vals["stderr"] = r.choice([None, "true", "false"])
         for k, v in vals.items():
             if v is not None:
                 self.keys_text[k] = v
@@ -108,6 +114,8 @@ class IniScenario:
         self.color_err = vals["stderr_color"] == "true"
         # which of the child's standard streams are terminals (a colour key colours only a stream that is one)
         self.tty_out, self.tty_err = r.choice([(False, False), (False, False), (True, False), (False, True), (True, True)])
+        if console_focus:
+            self.tty_out, self.tty_err = r.choice([(True, False), (False, True)])
         self.platform = True
         x = r.random()
         if x < 0.5:
